@@ -101,7 +101,8 @@ def rules(ctx, db):
         for f in pl:
             rs = calls(f, r"iour::notify::Notifier::reset$")
             wt = calls(f, r"iour::Driver::submit_auto$")
-            sa = [bb for bb, _ in calls(f, r"iour::notify::Notifier::set_awake$")]
+            # set_awake directly or through a helper (e.g. a "reap completions" helper)
+            sa = Summaries(db, r"iour::notify::Notifier::set_awake$").event_blocks(f, "may")
             ok = len(rs) == 1 and len(wt) == 1 and f.cfg.dominates(rs[0][0], wt[0][0]) and bool(sa) and \
                 all(f.cfg.dominates(wt[0][0], b) for b in sa)
             ctx.ob("R2", "iour-reset-wait-set", ok, "reset() ≺ submit-and-wait ≺ set_awake() in the io_uring poll", f)
@@ -110,9 +111,21 @@ def rules(ctx, db):
                 ctx.ob("R2", "iour-need_wait-from-reset", any(call_matches(t, r"Notifier::reset$") for _, t in croots),
                        "whether the wait may block is computed from the reset() result (a wake that raced with the "
                        "previous iteration forces a non-blocking poll)", f)
-            pe = [bb for bb, _ in calls(f, r"iour::Driver::poll_entries$")]
-            ctx.ob("R2", "iour-set_awake-after-drain", bool(pe) and any(f.cfg.dominates(pe[0], b) and b != pe[0] for b in sa),
+            # after the CQEs were drained the flag is AWAKE again: in the function that drains (poll itself or
+            # its helper) a set_awake follows poll_entries
+            drains = [g for g in [f] + [x for x in db.succ_fns(f, expand_traits=False) if "::iour::" in x.id]
+                      if calls(g, r"iour::Driver::poll_entries$")]
+            okd = False
+            for g in drains:
+                pe = [bb for bb, _ in calls(g, r"iour::Driver::poll_entries$")]
+                sa2 = [bb for bb, _ in calls(g, r"iour::notify::Notifier::set_awake$")]
+                if pe and any(g.cfg.dominates(pe[0], b) and b != pe[0] for b in sa2):
+                    okd = True
+            ctx.ob("R2", "iour-set_awake-after-drain", okd,
                    "set_awake() is repeated after the CQEs were drained (the notifier CQE handler may have run)", f)
+        # R2c: the awake mark is only (re)asserted on the poll path, after the wait
+        _awake_sites(ctx, db, "iour", r"iour::notify::Notifier::set_awake$", r"iour::Driver::submit_auto$",
+                     r"^compio_driver::sys::driver::iour::Driver::poll$")
         # R7
         arm = Summaries(db, r"^io_uring::opcode::PollAdd::new$")
         resetters = [f for f in db.fns.values() if "::iour::" in f.id and f.self_adt == "compio_driver::sys::driver::iour::Driver"
@@ -169,6 +182,8 @@ def rules(ctx, db):
                                 forced = True
                 ctx.ob("R2", "poll-zero-timeout-when-notified", forced,
                        "when reset() reports a pending notification the wait uses a zero timeout", f)
+        _awake_sites(ctx, db, "poll", r"poll::Notify::set_awake$", r"^polling::Poller::wait$",
+                     r"^compio_driver::sys::driver::poll::Driver::poll$")
         nt = db.methods(self_adt=r"^compio_driver::sys::driver::poll::Notify$", name="wake_by_ref", trait=r"Wake$")
         if not nt:
             ctx.missing("R3", "poll Notify::wake_by_ref")
@@ -228,6 +243,36 @@ def rules(ctx, db):
                 ctx.ob("R4", "push-less-exits-are-guarded", not early or len(guards) >= 3,
                        "schedule returns without queueing only when the task is already scheduled / completed / "
                        "cancelled or the executor is gone", f)
+        # the pending counter is shared between wakers and the drain: only RMW updates keep concurrent
+        # reservations intact
+        pend_ops = []
+        for g in db.fns.values():
+            if not g.id.startswith("compio_executor::"):
+                continue
+            for bb, t in atomic_calls(g):
+                if "pending" in receiver_field(g, t):
+                    pend_ops.append((g, bb, t))
+        ctx.floor("R4", "atomic operations on Shared::pending", len(pend_ops), 4)
+        for g, bb, t in pend_ops:
+            kind = t["fn"].rsplit("::", 1)[-1]
+            ctx.ob("R4", "pending-updated-by-RMW-only:%s/%s" % (db.root_fn(g).name, kind), kind in ("load", "fetch_add", "fetch_sub"),
+                   "Shared::pending is touched only by load / fetch_add / fetch_sub: a plain store (e.g. resetting it to 0 "
+                   "after a drain) erases the reservation of a waker that has incremented but not yet pushed, after which "
+                   "the drain's fast path never looks at the queue again", g)
+        for f in ds_fns(db):
+            subs = [(bb, t) for bb, t in atomic_calls(f) if call_matches(t, r"::fetch_sub$") and "pending" in receiver_field(f, t)]
+            okc = False
+            for bb, t in subs:
+                # the amount subtracted is the number of ids actually popped (a counter incremented in the pop loop)
+                p = op_place(t["args"][1])
+                if p is not None:
+                    locs, cr, places = data_deps(f, p["l"])
+                    pops = [b for b, _ in calls(f, r"ArrayQueue::<T>::pop$")]
+                    incs = [bi for bi, si, s in f.stmts() if s.get("r", {}).get("k") == "bin" and s["r"].get("x", "").startswith("Add") and s["a"]["l"] in locs]
+                    if pops and any(f.cfg.dominates(pops[0], b) for b in incs):
+                        okc = True
+            ctx.ob("R4", "pending-released-by-popped-count", okc,
+                   "drain_sync subtracts exactly the number of ids it popped", f)
         tk = db.methods(self_adt=r"^compio_executor::Executor$", name="tick", trait="")
         if not tk:
             ctx.missing("R5", "Executor::tick")
@@ -291,6 +336,62 @@ def rules(ctx, db):
                         ok = any(call_matches(ct, r"Runtime::current_timeout$") for _, ct in cr)
                         ctx.ob("R6", "drive-wait-uses-runtime-timeout", ok,
                                "the wait timeout comes from the runtime's nearest deadline (or zero)", f)
+
+
+def _awake_sites(ctx, db, tag, set_rx, wait_rx, poll_name_rx):
+    """Every site that marks the driver awake (directly or through a helper) lies on the poll path after
+    the blocking wait. Marking awake elsewhere overwrites a NOTIFIED bit set by a wake that was issued
+    while the driver was running, i.e. it swallows that wake-up."""
+    direct = [(f, bb) for f, bb, t in db.callers_of(set_rx) if not f.blocks[bb]["cl"] and "::driver::%s::" % tag in f.id]
+    ctx.floor("R2", "%s set_awake sites" % tag, len(direct), 1)
+    checked = set()
+    work = list(direct)
+    n = 0
+    while work and n < 50:
+        f, bb = work.pop()
+        n += 1
+        key = (f.id, bb)
+        if key in checked:
+            continue
+        checked.add(key)
+        root = db.root_fn(f)
+        if re.search(poll_name_rx, root.name):
+            # closures inside poll (with_events(|..| ..)) count as part of poll
+            if f is root:
+                waits = [b for b, _ in calls(f, wait_rx)]
+                ctx.ob("R2", "%s-awake-mark-after-wait:%s" % (tag, f.name), dominated_by_any(f, waits, bb) is not None,
+                       "set_awake (overwriting NOTIFIED) is dominated by the blocking wait of this poll", f)
+            continue
+        if f.short == "set_awake":
+            # the wrapper on the notifier type itself
+            for g, b2 in db.callers().get(f.id, []):
+                if not g.blocks[b2]["cl"]:
+                    work.append((g, b2))
+            continue
+        # a helper: every caller must be the poll path
+        sites = [(g, b2) for g, b2 in db.callers().get(f.id, []) if not g.blocks[b2]["cl"]]
+        if not sites:
+            ctx.ob("R2", "%s-awake-mark-only-in-poll:%s" % (tag, f.name), False,
+                   "the driver is marked awake outside its poll path (a wake-up issued meanwhile is swallowed)", f)
+        for g, b2 in sites:
+            groot = db.root_fn(g)
+            if re.search(poll_name_rx, groot.name):
+                waits = [b for b, _ in calls(groot, wait_rx)]
+                where = b2 if g is groot else None
+                ok = True
+                if where is not None:
+                    ok = dominated_by_any(groot, waits, where) is not None
+                ctx.ob("R2", "%s-awake-mark-after-wait:%s<-%s" % (tag, f.name, g.name), ok,
+                       "the helper that marks the driver awake is called after the blocking wait", g)
+            else:
+                ctx.ob("R2", "%s-awake-mark-only-in-poll:%s<-%s" % (tag, f.name, g.name), False,
+                       "`%s` marks the driver awake (overwriting a pending NOTIFIED) and is called from `%s`, which is "
+                       "not the poll path: a wake-up issued while completions are drained there is swallowed and the "
+                       "next poll blocks" % (f.name, g.name), g)
+
+
+def ds_fns(db):
+    return db.methods(self_adt=r"^compio_executor::Shared$", name="drain_sync", trait="")
 
 
 def bool_edges_of_is_err(f, pbb):
